@@ -707,6 +707,75 @@ fn no_index_body() {
 }
 
 
+// ------------------------------------------------------------------ RelIndexType1 buckets that grow
+
+type Ix1U = RelIndexType1<(u8,), usize>;
+
+/// One key present in delta (`ND` rows) and in total (`NT` rows), merged as generated code does.
+/// The shapes are concrete (so `Vec` growth is a reallocation of known size and the harness does
+/// not need the "no growth" bound of the others); the row numbers are symbolic.  total' must hold
+/// all `ND + NT` rows under the key, with the same sum and xor of row numbers, and delta' is empty.
+fn bucket_growth_body<const ND: usize, const NT: usize>() {
+   let (mut new, mut delta, mut total) = (Ix1U::default(), Ix1U::default(), Ix1U::default());
+   let vals: [usize; 6] = kani::any();
+   kani::assume(vals[0] < 64 && vals[1] < 64 && vals[2] < 64 && vals[3] < 64 && vals[4] < 64 && vals[5] < 64);
+   assert!(ND + NT <= 6);
+   macro_rules! put {
+      ($i:literal) => {
+         if $i < NT {
+            total.index_insert((0,), vals[$i]);
+         } else if $i < NT + ND {
+            delta.index_insert((0,), vals[$i]);
+         }
+      };
+   }
+   put!(0);
+   put!(1);
+   put!(2);
+   put!(3);
+   put!(4);
+   put!(5);
+   RelIndexMerge::merge_delta_to_total_new_to_delta(&mut new, &mut delta, &mut total);
+   let bucket = total.get(&(0u8,)).unwrap();
+   assert!(bucket.len() == ND + NT);
+   let (mut s2, mut x2, mut sum, mut xor) = (0usize, 0usize, 0usize, 0usize);
+   macro_rules! see {
+      ($i:literal) => {
+         if $i < ND + NT {
+            s2 += bucket[$i];
+            x2 ^= bucket[$i];
+            sum += vals[$i];
+            xor ^= vals[$i];
+         }
+      };
+   }
+   see!(0);
+   see!(1);
+   see!(2);
+   see!(3);
+   see!(4);
+   see!(5);
+   assert!(s2 == sum && x2 == xor);
+   assert!(delta.is_empty() && new.is_empty());
+   kani::cover!(true);
+   std::mem::forget((new, delta, total));
+}
+
+#[macro_export]
+macro_rules! growth_harness {
+   ($name:ident, $unwind:literal, $body:expr) => {
+      #[kani::proof]
+      #[kani::unwind($unwind)]
+      #[kani::stub(std::time::Instant::now, crate::stubs::instant_now)]
+      #[kani::stub(std::time::Instant::elapsed, crate::stubs::instant_elapsed)]
+      #[kani::stub(std::mem::swap, crate::stubs::mem_swap)]
+      #[kani::stub(std::alloc::alloc, crate::stubs::alloc_size_classes)]
+      #[kani::stub(alloc::alloc::realloc_nonnull, crate::stubs::realloc_size_classes)]
+      #[kani::stub(alloc::alloc::dealloc_nonnull, crate::stubs::dealloc_noop)]
+      pub fn $name() { $body }
+   };
+}
+
 // ------------------------------------------------------------------ harnesses
 
 /// quick tier: every type at the smallest bound that reaches each mechanism
@@ -723,6 +792,18 @@ pub mod quick {
    ix1_harness!(rel_index_type1_merge_iter_d1_t1, 0, 1, 1, OBS_ITER, false, 2, [append, vacant]);
    ix1_harness!(rel_index_type1_merge_new_to_delta, 2, 0, 0, OBS_GET, false, 2, []);
    ix1_harness!(to_rel_index_type_merge_get_d1_t1, 1, 1, 1, OBS_GET, true, 2, [append, vacant]);
+}
+
+/// buckets beyond the first allocation (capacity 4 for `usize` rows): delta longer / shorter than total,
+/// growth needed in the receiving bucket or not
+pub mod growth {
+   use super::*;
+   growth_harness!(bucket_growth_d5_t1, 3, bucket_growth_body::<5, 1>());
+   growth_harness!(bucket_growth_d1_t5, 3, bucket_growth_body::<1, 5>());
+   growth_harness!(bucket_growth_d3_t2, 3, bucket_growth_body::<3, 2>());
+   growth_harness!(bucket_growth_d2_t3, 3, bucket_growth_body::<2, 3>());
+   growth_harness!(bucket_growth_d4_t2, 3, bucket_growth_body::<4, 2>());
+   growth_harness!(bucket_growth_d2_t4, 3, bucket_growth_body::<2, 4>());
 }
 
 /// thorough tier only
